@@ -426,6 +426,11 @@ def b_copy_(P, s, a, b, c, name):
         else:
             src_ = quantize_weight(x, d.qtype, [0, -1][b % 2])
         return dict(f=lambda d, s_: d.copy_(s_), ops=[("p", i), ("x", 0)], extra=[("fresh", src_)], klass="requant", inplace=0)
+    if isinstance(d, QBytesTensor) and d.axis is not None and d.ndim == 3 and d.shape[1] > 1 and c % 7 == 4 and d.dtype in DTYPES:
+        # a per-axis source of LOWER rank, broadcast along the leading dimension of a per-axis destination
+        x = gen.clamp_finite(_values(list(d.shape[1:]), d.dtype, 4900 + b, 1.0).to(torch.float64) * float(d._scale.abs().min().to(torch.float64)) * 40, d.dtype)
+        src_ = quantize_weight(x, d.qtype, 0)
+        return dict(f=lambda d, s_: d.copy_(s_), ops=[("p", i), ("x", 0)], extra=[("fresh", src_)], klass="requant", inplace=0)
     srcv = extra[0][1] if srcop[0] == "x" else P.vals[srcop[1]]
     nb = c % 3 == 0  # copy_(src, non_blocking=True) is the same copy
     if isinstance(d, QBytesTensor) and c % 5 == 4:
